@@ -22,7 +22,8 @@ The OpenMP half (atomic / non-atomic `clips +=`, finding F8) is `Properties/C06T
   channels: channel 1 continues the dither stream where channel 0 stopped;
 * `clips_eq_sum_shares` (any conversion) and `clips_sum_of_mono_runs` (seed-free conversions): the clip counter is the sum of
   the per-channel clip counts;
-* `split_path_eq_generic`: the both-split loop of `soxr_process` computes what the generic path computes.
+* `split_path_eq_generic`: the both-split loop of `soxr_process` computes what the generic path computes — also with a
+  latched error (sticky on both paths since /repo commit 27b24c1; the hypothesis "no latched error" is gone).
 -/
 namespace Soxr.C06
 open Soxr.Chan
@@ -145,12 +146,29 @@ theorem split_path_eq_generic (cfg : Cfg α β) (s : St σ) (inb : Option (InBuf
     (rs : List (Nat → FnReply β))
     (hs : cfg.isplit = true ∧ cfg.osplit = true)
     (hlen : s.eng.length = cfg.ch)
-    (herr : s.error = none)            -- the both-split loop does not look at p->error
-    (hfn : s.fn = none)                -- … and never calls the input function
+    (hfn : s.fn = none)                -- the both-split loop never calls the input function
     (hnil : ∀ e, E.input e [] = e)     -- soxr_input_1ch with ilen = 0 reserves nothing
     :
     process E cfg s inb ilen0 fr wi true olen rs = processGeneric E cfg s inb ilen0 fr wi true olen rs := by
-  rw [process_split_eq cfg s inb ilen0 fr wi true olen rs hs (by simp)]
+  by_cases hE : s.error.isSome = true
+  · -- a latched error is sticky on both paths (since /repo commit 27b24c1): nothing but the flush bookkeeping happens
+    rw [process_err cfg s inb ilen0 fr wi true olen rs (by simp) hE]
+    have he0 : (procFlush cfg s inb ilen0 fr wi olen).error.isSome = true := hE
+    unfold processGeneric
+    simp only
+    have hin : (if procIlen cfg inb ilen0 wi olen ≠ 0 then input E cfg (procFlush cfg s inb ilen0 fr wi olen) inb
+          (procIlen cfg inb ilen0 wi olen) else (procFlush cfg s inb ilen0 fr wi olen, 0))
+        = (procFlush cfg s inb ilen0 fr wi olen, 0) := by
+      split
+      · exact input_err cfg _ _ _ he0
+      · rfl
+    rw [hin]
+    simp only [output, he0, if_true]
+  have herr : s.error = none := by
+    cases hS : s.error with
+    | none => rfl
+    | some e => rw [hS] at hE; simp at hE
+  rw [process_split_eq cfg s inb ilen0 fr wi true olen rs hs (by simp) herr]
   unfold processGeneric
   simp only
   -- the state after the input step is the same
